@@ -220,15 +220,16 @@ Example C03_bvm_ex_bad_upvalue_rejected :
   end.
 Proof. vm_compute. repeat split; reflexivity. Qed.
 
-(* ---- a finding: the shipped test closure_tuple_escape.mmm reads a two-word OPEN upvalue into the registers at the top
-        of the stack (function ff, pc 2: GetUpValue 2 1 2; the verifier, which cannot know that f's cells are closed, already
-        stops at the same pattern in f, pc 3).  vm.rs hands set_vec_range a slice that points into the
-        stack while the pushes may reallocate it (use-after-free read; the source file itself notes "the result becomes 48
-        only on the time 0").  The verifier rejects the bytecode there and the model refuses to predict the VM ---- *)
-Example C03_bvm_open_upvalue_read_grows_stack_rejected :
-  xverify ex_tuple_escape = false /\ xfirst_bad ex_tuple_escape = Some (2, 3) /\
+(* ---- a repaired finding (C03/F66): the shipped test closure_tuple_escape.mmm reads a two-word OPEN upvalue into the
+        registers at the top of the stack (function ff, pc 2: GetUpValue 2 1 2).  vm.rs used to hand set_vec_range a slice
+        that pointed into the stack while the pushes could reallocate it (use-after-free read; the source file itself notes
+        "the result becomes 48 only on the time 0"); since the repair the words move inside the stack (move_stack_range).
+        The bytecode is accepted and runs: one word per sample, cursor 0; closures.len() / heap.len() grow by one per
+        sample as on the real VM (the closure returned by `test` is never released: C12's subject) ---- *)
+Example C03_bvm_open_upvalue_read_at_stack_top_accepted :
+  xverify ex_tuple_escape = true /\
   match xafter_main false ex_tuple_escape with
-  | Some x => xexec_dsp toy ex_tuple_escape false 400 [] x = XUnsupported UnsupStackAlias
+  | Some x => xsamples false ex_tuple_escape 2 x = [Some (1, 0, 1, 1); Some (1, 0, 2, 2)]
   | None => False
   end.
-Proof. vm_compute. repeat split; reflexivity. Qed.
+Proof. vm_compute. split; reflexivity. Qed.
